@@ -294,6 +294,7 @@ package endpoint
 //@   loop 0: backedge st = upd(st, old(len(m.comp.State.MsgOutBuf)) - len(m.comp.State.MsgOutBuf), len(m.comp.State.FlitsToSend))
 //@   loop 0: invariant epWF(m) && idGenOK() && issuedGrows() && 0 <= prepK(m) && prepK(m) <= old(len(m.comp.State.MsgOutBuf)) && ref(m.comp.State.MsgOutBuf) == old(ref(m.comp.State.MsgOutBuf)) && off(m.comp.State.MsgOutBuf) == old(off(m.comp.State.MsgOutBuf)) + prepK(m) && (madeProgress <==> prepK(m) > 0)
 //@   loop 0: invariant st[0] == old(len(m.comp.State.FlitsToSend)) && st[prepK(m)] == len(m.comp.State.FlitsToSend) && (forall c in 0..prepK(m) :: st[c] <= st[c + 1] && st[c] < maxFlits)
+//@   loop 0: invariant len(m.comp.State.FlitsToSend) >= old(len(m.comp.State.FlitsToSend)) && (forall c in 0..prepK(m) + 1 :: old(len(m.comp.State.FlitsToSend)) <= st[c] && st[c] <= len(m.comp.State.FlitsToSend))
 //@   loop 0: invariant (ref(m.comp.State.FlitsToSend) == old(ref(m.comp.State.FlitsToSend)) && off(m.comp.State.FlitsToSend) == old(off(m.comp.State.FlitsToSend))) || fresh(m.comp.State.FlitsToSend)
 //@   loop 0: invariant forall p in 0..old(len(m.comp.State.FlitsToSend)) :: m.comp.State.FlitsToSend[p].MsgMeta.ID == old(m.comp.State.FlitsToSend[p].MsgMeta.ID)
 //@   loop 0: invariant forall p in 0..old(len(m.comp.State.FlitsToSend)) :: m.comp.State.FlitsToSend[p].MsgMeta.Src == old(m.comp.State.FlitsToSend[p].MsgMeta.Src)
@@ -319,3 +320,32 @@ package endpoint
 //@   loop 0: invariant forall c in 0..prepK(m) :: forall p in st[c]..st[c + 1] :: m.comp.State.FlitsToSend[p].Msg.TrafficClass == old(m.comp.State.MsgOutBuf[c].TrafficClass)
 //@   loop 0: invariant forall c in 0..prepK(m) :: forall p in st[c]..st[c + 1] :: m.comp.State.FlitsToSend[p].Msg.TrafficBytes == old(m.comp.State.MsgOutBuf[c].TrafficBytes)
 //@   loop 1: invariant -1 <= rangeindex && rangeindex < len(flits)
+
+// ---- sendFlitOut: sends a prefix of the send buffer, in order and unchanged, on the network port ----
+//@ func sentAt(p, n) = mkiface(sentTyp[p][n], sentVal[p][n])
+//@ func sendK(m) = sendCnt[netP(m)] - old(sendCnt)[netP(m)]
+// the n-th message ever sent on the network port is flit q of the send buffer on entry (boxed by value: all fifteen fields)
+//@ pred sentIsFlit(m, n, q) = hastype(sentAt(netP(m), n), "packetization.Flit") && as(sentAt(netP(m), n), "packetization.Flit").MsgMeta.ID == old(m.comp.State.FlitsToSend[q].MsgMeta.ID) && as(sentAt(netP(m), n), "packetization.Flit").MsgMeta.Src == old(m.comp.State.FlitsToSend[q].MsgMeta.Src) && as(sentAt(netP(m), n), "packetization.Flit").MsgMeta.Dst == old(m.comp.State.FlitsToSend[q].MsgMeta.Dst) && as(sentAt(netP(m), n), "packetization.Flit").MsgMeta.TrafficClass == old(m.comp.State.FlitsToSend[q].MsgMeta.TrafficClass) && as(sentAt(netP(m), n), "packetization.Flit").MsgMeta.TrafficBytes == old(m.comp.State.FlitsToSend[q].MsgMeta.TrafficBytes) && as(sentAt(netP(m), n), "packetization.Flit").MsgMeta.RspTo == old(m.comp.State.FlitsToSend[q].MsgMeta.RspTo) && as(sentAt(netP(m), n), "packetization.Flit").SeqID == old(m.comp.State.FlitsToSend[q].SeqID) && as(sentAt(netP(m), n), "packetization.Flit").NumFlitInMsg == old(m.comp.State.FlitsToSend[q].NumFlitInMsg) && as(sentAt(netP(m), n), "packetization.Flit").Msg.ID == old(m.comp.State.FlitsToSend[q].Msg.ID) && as(sentAt(netP(m), n), "packetization.Flit").Msg.Src == old(m.comp.State.FlitsToSend[q].Msg.Src) && as(sentAt(netP(m), n), "packetization.Flit").Msg.Dst == old(m.comp.State.FlitsToSend[q].Msg.Dst) && as(sentAt(netP(m), n), "packetization.Flit").Msg.TrafficClass == old(m.comp.State.FlitsToSend[q].Msg.TrafficClass) && as(sentAt(netP(m), n), "packetization.Flit").Msg.TrafficBytes == old(m.comp.State.FlitsToSend[q].Msg.TrafficBytes) && as(sentAt(netP(m), n), "packetization.Flit").Msg.RspTo == old(m.comp.State.FlitsToSend[q].Msg.RspTo) && as(sentAt(netP(m), n), "packetization.Flit").MsgTaskID == old(m.comp.State.FlitsToSend[q].MsgTaskID)
+//@ pred sendLogKept(m) = (forall p int :: p != netP(m) ==> sendCnt[p] == old(sendCnt)[p] && sentTyp[p] == old(sentTyp)[p] && sentVal[p] == old(sentVal)[p]) && (forall n int :: n < old(sendCnt)[netP(m)] ==> sentTyp[netP(m)][n] == old(sentTyp)[netP(m)][n] && sentVal[netP(m)][n] == old(sentVal)[netP(m)][n])
+//@ fn (*outgoingMW).sendFlitOut
+//@   property C31
+//@   requires epWF(m)
+//@   label C31.send.count
+//@   ensures 0 <= sendK(m) && sendK(m) <= old(len(m.comp.State.FlitsToSend)) && sendK(m) <= max(0, m.comp.spec.NumOutputChannels) && (result <==> sendK(m) > 0)
+//@   label C31.send.pop
+//@   ensures ref(m.comp.State.FlitsToSend) == old(ref(m.comp.State.FlitsToSend)) && off(m.comp.State.FlitsToSend) == old(off(m.comp.State.FlitsToSend)) + sendK(m) && len(m.comp.State.FlitsToSend) == old(len(m.comp.State.FlitsToSend)) - sendK(m)
+//@   label C31.send.inorder
+//@   ensures forall n in 0..sendK(m) :: sentIsFlit(m, old(sendCnt)[netP(m)] + n, n)
+//@   label C31.send.stop
+//@   ensures sendK(m) < old(len(m.comp.State.FlitsToSend)) && sendK(m) < m.comp.spec.NumOutputChannels ==> !canSend[netP(m)]
+//@   label C31.send.log
+//@   ensures sendLogKept(m)
+//@   label C31.send.notify
+//@   ensures (sendK(m) == 0 || len(m.comp.State.FlitsToSend) > 0 ==> availCnt == old(availCnt)) && (sendK(m) > 0 && len(m.comp.State.FlitsToSend) == 0 ==> (forall j in 0..len(m.devicePorts) :: availCnt[ifaceval(m.devicePorts[j])] > old(availCnt)[ifaceval(m.devicePorts[j])]))
+//@   assigns m.comp.State.FlitsToSend, canSend, sendCnt, sentTyp, sentVal, availCnt
+//@   loop 0: invariant epWF(m) && 0 <= i && numSent == i && i <= len(m.comp.State.FlitsToSend) && i <= max(0, m.comp.spec.NumOutputChannels) && (madeProgress <==> i > 0) && sendCnt[netP(m)] == old(sendCnt)[netP(m)] + i && availCnt == old(availCnt)
+//@   loop 0: invariant ref(m.comp.State.FlitsToSend) == old(ref(m.comp.State.FlitsToSend)) && off(m.comp.State.FlitsToSend) == old(off(m.comp.State.FlitsToSend)) && len(m.comp.State.FlitsToSend) == old(len(m.comp.State.FlitsToSend))
+//@   loop 0: invariant forall n in 0..i :: sentIsFlit(m, old(sendCnt)[netP(m)] + n, n)
+//@   loop 0: invariant sendLogKept(m)
+//@   loop 1: invariant -1 <= rangeindex && rangeindex < len(m.devicePorts) && (forall p int :: availCnt[p] >= old(availCnt)[p])
+//@   loop 1: invariant forall j in 0..rangeindex + 1 :: availCnt[ifaceval(m.devicePorts[j])] > old(availCnt)[ifaceval(m.devicePorts[j])]
